@@ -89,6 +89,15 @@ CLAIMS.update({
    technique="Lean 4 proof (invariant over operations for arbitrary fault behaviour) + exhaustive fault-offset correspondence"),
 })
 
+CLAIMS.update({
+ 'C20': dict(level='proof',
+   text="PARTIAL. Proved in Lean: interleaving_equals_solo / result_equals_solo / no_conflict over a small-step interleaving semantics — for any number of threads and ANY schedule, if no thread writes a shared location then every "
+        "thread's reads, result and private memory equal its solo run and no two steps conflict. Tie/C20 (regenerated from /repo on every run): the effect summary of everything reachable from Wrap/Unwrap/Encrypt/Decrypt of the "
+        "four native types has NO store to a receiver field, package-level variable or parameter pointee (sharedStores = [], mutatedGlobals = []). Support (not proof): a -race build sharing one value of each of the 8 types among 2..32 goroutines.",
+   note=COMMON_NOTE + "Not provable here: the Go memory model, races inside stdlib / x/crypto callees on shared read-only arguments, and soundness of the extractor's syntactic effect summary for aliasing and out-of-module callees — these are trusted; the race-detector runs support them.",
+   technique="Lean 4 proof over an interleaving semantics + effect summary regenerated from source (go/ast+go/types) + race-detector stress runs"),
+})
+
 def main():
     hook = subprocess.run(['git', '-C', '/repo', 'log', '--format=%h', '--grep=^verifhook', '-n', '5'], capture_output=True, text=True).stdout.split()
     m = {
